@@ -42,6 +42,11 @@
 (*                               are not tags                                  *)
 (*   "RowCellsReadAsAttributes"  table_row_check_attrs re-reads the cells a    *)
 (*                               row already has as its attribute text         *)
+(*   "HdrSepEndsCall"            a !! inside {{{1|...}}} / {{#fn:...}} within  *)
+(*                               a table closes the call (table_hdr_cell_fn    *)
+(*                               knows TEMPLATE, LINK, URL, HTML only)          *)
+(*   "HdrSepEndsFormat"          a !! inside a bold / italic run of a DATA cell *)
+(*                               closes the run (only a bare cell is checked)   *)
 (* What-if switches (never passed by the harness, demos only): WhatIfKeyDevs    *)
 (* (cookie key not injective), WhatIfAttrDevs (parse_attrs takes more than the  *)
 (* ONE pair of delimiters off a quoted value).                                  *)
@@ -49,7 +54,8 @@ EXTENDS Unparse
 
 CONSTANT Tags   \* wikihtml.ALLOWED_HTML_TAGS as tag :> [parents, content, closenext : Seq(STRING), noend : BOOLEAN]
 
-AllParserDevs == {"CaptionSwallowsDataCells", "TagAttrNameCharset", "RowCellsReadAsAttributes"}
+AllParserDevs == {"CaptionSwallowsDataCells", "TagAttrNameCharset", "RowCellsReadAsAttributes",
+                  "HdrSepEndsCall", "HdrSepEndsFormat"}
 
 (* ------------------------------------------------------------------------ *)
 (* vocabulary (TLC cannot look inside a string: classes are explicit sets)   *)
@@ -823,6 +829,10 @@ TableRowFn(st) ==
        ELSE Cov(Push(PopUntil(st1, {"TABLE"}, TRUE), "TABLE_ROW"), "row")
 
 (* ---- table_hdr_cell_fn ---- *)
+TablePartKinds == {"TABLE", "TABLE_CAPTION", "TABLE_ROW", "TABLE_CELL", "TABLE_HEADER_CELL"}
+RECURSIVE InnerTablePartAt(_, _)
+InnerTablePartAt(st, i) == IF i = 0 THEN "none" ELSE IF st.stack[i].kind \in TablePartKinds THEN st.stack[i].kind ELSE InnerTablePartAt(st, i - 1)
+InnerTablePart(st) == InnerTablePartAt(st, Len(st.stack))      \* kind of the innermost open table part
 HdrLoop(st, tok) ==
   LET node == Top(st) IN
   IF node.kind = "TABLE_ROW" THEN Cov(Push(st, "TABLE_HEADER_CELL"), "hdr:in-row")
@@ -831,6 +841,12 @@ HdrLoop(st, tok) ==
   THEN IF AtBol(st) THEN Cov(Push(Push(Pop(st, FALSE), "TABLE_ROW"), "TABLE_HEADER_CELL"), "hdr:closes-caption")
        ELSE TextFn(st, tok)
   ELSE IF node.kind \in {"HTML", "TEMPLATE", "LINK", "URL"} THEN TextFn(Cov(st, "hdr:text-in-inline"), tok)
+  \* repaired table_hdr_cell_fn: an argument reference / a parser function is a call like a template: the
+  \* characters between its brackets belong to its arguments
+  ELSE IF node.kind \in {"TEMPLATE_ARG", "PARSER_FN"} /\ "HdrSepEndsCall" \notin st.dev THEN TextFn(Cov(st, "hdr:text-in-call"), tok)
+  \* repaired: on a data line (innermost open table part = a data cell) ! and !! are text also inside a bold / italic run
+  ELSE IF node.kind \in {"BOLD", "ITALIC"} /\ "HdrSepEndsFormat" \notin st.dev /\ InnerTablePart(st) = "TABLE_CELL"
+          /\ ~AtBol(st) /\ ~st.wbol THEN TextFn(Cov(st, "hdr:text-in-format"), tok)
   ELSE IF node.kind = "TABLE_CELL" /\ ~AtBol(st) /\ ~st.wbol THEN TextFn(Cov(st, "hdr:text-in-cell"), tok)
   ELSE IF Len(st.stack) = 1 THEN TextFn(st, tok)
   ELSE HdrLoop(Pop(st, TRUE), tok)
